@@ -1,4 +1,4 @@
-import Vflow.Proofs.SflowFilter
+import Vflow.Proofs.SflowSpec
 /-!
 # C18 — the sFlow type filter removes exactly the listed sample types
 
@@ -57,6 +57,13 @@ theorem filter_spec_ok (f : List Nat) (bs : Bytes) (hfr : FramedDatagram f bs) (
     decode f bs = .ok { d with samples := if 1 ∈ f then [] else d.samples,
                                counters := if 2 ∈ f then [] else d.counters } := by
   rw [filter_spec f bs hfr, h]; rfl
+
+/-- **C18 (well-formed datagrams)**: for every filter list and every well-formed abstract datagram, the
+filtered decode of its encoding is the expected datagram minus the listed types (C07 is the case `f = []`);
+proved directly from the sample-level round trip, and an instance of `filter_spec` because encoded
+samples are framed -/
+theorem filter_encode (f : List Nat) (d : ADatagram) (hwf : d.WF) :
+    decode f (encodeSflow d) = .ok (dropTypes f (expected d)) := decode_enc f d hwf
 
 /-- a datagram: flow sample (extended switch record) followed by a counter sample (processor record) -/
 def witness : Bytes :=
